@@ -166,7 +166,7 @@ def inst_fxp_list(H, l, f, func, flags):
     secfxp = mpc.SecFxp(l, f); H.register_field(secfxp.field); p = secfxp.field.modulus
     one = 1 << f
     lo, hi = rng(l - 2 if func in ('schur_prod', 'in_prod', 'prod', 'scalar_mul', 'matrix_prod') else l - 1)
-    small = func in ('schur_prod', 'in_prod', 'prod', 'scalar_mul', 'matrix_prod')
+    small = func in ('schur_prod', 'in_prod', 'prod', 'scalar_mul', 'matrix_prod', 'prod_start')
     if small: lo, hi = -(1 << ((l + f) // 2 - 2)), 1 << ((l + f) // 2 - 2)
     fl = lambda t: t / one
     near = lambda vz, num: z3.Or(vz == fl(num), vz == fl(num) + 1)
@@ -188,6 +188,10 @@ def inst_fxp_list(H, l, f, func, flags):
             c = secfxp(1, integral=True) if flags[4] else secfxp(0, integral=True)
             u, w = mpc.if_swap(c, X, Y); z = list(u) + list(w)
         elif func == 'sum': z = [mpc.sum(X + Y)]
+        elif func == 'sum_start': z = [mpc.sum(X, start=Y[0])]
+        elif func == 'sum_start_float': z = [mpc.sum(X, start=0.5)]
+        elif func == 'sum_start_int': z = [mpc.sum(X, start=3)]
+        elif func == 'prod_start': z = [mpc.prod(X, start=Y[0])]
         elif func == 'in_prod': z = [mpc.in_prod(X, Y)]
         elif func == 'prod': z = [mpc.prod(X)]
         elif func == 'matrix_prod': z = [e for r in mpc.matrix_prod([X], [[Y[0]], [Y[1]]]) for e in r]
@@ -211,6 +215,11 @@ def inst_fxp_list(H, l, f, func, flags):
             a, b = (yv, xv) if flags[4] else (xv, yv)
             g = [(f'{func}-first-{i}', vz[i] == a[i]) for i in range(2)] + [(f'{func}-second-{i}', vz[2 + i] == b[i]) for i in range(2)]
         elif func == 'sum': g = [(func, vz[0] == xv[0] + xv[1] + yv[0] + yv[1])]
+        elif func == 'sum_start': g = [(func, vz[0] == xv[0] + xv[1] + yv[0])]
+        elif func == 'sum_start_float': g = [(func, vz[0] == xv[0] + xv[1] + one // 2)]
+        elif func == 'sum_start_int': g = [(func, vz[0] == xv[0] + xv[1] + 3 * one)]
+        elif func == 'prod_start':
+            g = [(func, z3.Or(*[vz[0] == fl(fl(xv[0] * yv[0]) * xv[1]) + d for d in (0, 1, 2)] + [vz[0] == fl((fl(xv[0] * yv[0]) + 1) * xv[1]) + d for d in (0, 1)]))]
         elif func in ('in_prod', 'matrix_prod'):
             num = xv[0] * yv[0] + xv[1] * yv[1]
             g = [(func, near(vz[0], num))]
